@@ -71,7 +71,7 @@ view == <<lens, nc, shape, ver, file, stored, intr, ph, rc, L, pos, out, pulled,
 MaxVer == Len(lens)
 F(v) == [i \in 1..lens[v] |-> 100 * v + i]
 LensQuick == {<<0, 2>>, <<1, 1>>, <<2, 2>>}
-LensThorough == {<<0, 2, 1>>, <<1, 1, 1>>, <<2, 2, 2>>, <<3, 3, 3>>, <<2, 0, 3>>}
+LensThorough == {<<0, 2, 1>>, <<1, 0, 2>>, <<2, 2, 2>>, <<3, 3, 3>>}
 Absent == [k |-> "A", c |-> <<>>]
 Refused == [k |-> "B", c |-> <<>>]
 Full(s) == [k |-> "F", c |-> s]
